@@ -45,7 +45,7 @@ func (c *ControllerWithEvents) CreateTransaction(ctx context.Context, parameters
 	if err != nil {
 		return nil, nil, false, err
 	}
-	if !parameters.DryRun {
+	if !parameters.DryRun && !idempotencyHit {
 		c.handleEvent(ctx, func() {
 			c.listener.CommittedTransactions(ctx, c.ledger.Name, ret.Transaction, ret.AccountMetadata)
 		})
@@ -59,7 +59,7 @@ func (c *ControllerWithEvents) RevertTransaction(ctx context.Context, parameters
 	if err != nil {
 		return nil, nil, false, err
 	}
-	if !parameters.DryRun {
+	if !parameters.DryRun && !idempotencyHit {
 		c.handleEvent(ctx, func() {
 			c.listener.RevertedTransaction(
 				ctx,
@@ -78,7 +78,7 @@ func (c *ControllerWithEvents) SaveTransactionMetadata(ctx context.Context, para
 	if err != nil {
 		return nil, false, err
 	}
-	if !parameters.DryRun {
+	if !parameters.DryRun && !idempotencyHit {
 		c.handleEvent(ctx, func() {
 			c.listener.SavedMetadata(
 				ctx,
@@ -98,7 +98,7 @@ func (c *ControllerWithEvents) SaveAccountMetadata(ctx context.Context, paramete
 	if err != nil {
 		return nil, false, err
 	}
-	if !parameters.DryRun {
+	if !parameters.DryRun && !idempotencyHit {
 		c.handleEvent(ctx, func() {
 			c.listener.SavedMetadata(
 				ctx,
@@ -118,7 +118,7 @@ func (c *ControllerWithEvents) DeleteTransactionMetadata(ctx context.Context, pa
 	if err != nil {
 		return nil, false, err
 	}
-	if !parameters.DryRun {
+	if !parameters.DryRun && !idempotencyHit {
 		c.handleEvent(ctx, func() {
 			c.listener.DeletedMetadata(
 				ctx,
@@ -138,7 +138,7 @@ func (c *ControllerWithEvents) DeleteAccountMetadata(ctx context.Context, parame
 	if err != nil {
 		return nil, false, err
 	}
-	if !parameters.DryRun {
+	if !parameters.DryRun && !idempotencyHit {
 		c.handleEvent(ctx, func() {
 			c.listener.DeletedMetadata(
 				ctx,
@@ -158,7 +158,7 @@ func (c *ControllerWithEvents) InsertSchema(ctx context.Context, parameters Para
 	if err != nil {
 		return nil, nil, false, err
 	}
-	if !parameters.DryRun {
+	if !parameters.DryRun && !idempotencyHit {
 		c.handleEvent(ctx, func() {
 			c.listener.InsertedSchema(ctx, c.ledger.Name, ret.Schema)
 		})
